@@ -710,6 +710,40 @@ def run(only=None):
         ], may_write=("repair_if_necessary", "decode_with_repair"))
         s.done()
 
+    if want("storage_twin_histories"):
+        s = rep.sub("storage_twin_histories",
+                    "5 messages x 3 containers that a cache keyed by storage octets confuses (big-endian bitarray, little-endian bitarray over the same octets = "
+                    "another message, little-endian bitarray with the same bits): all ordered pairs of encode calls back to back give the reference codeword "
+                    "of the message the container holds; all ordered pairs of decode calls (repair on / off) over the containers of 3 codewords with 0, 1, 2 "
+                    "channel errors return the message")
+        tms = [env.det_bits(f"c02-twin-{i}", K) for i in range(4)] + [("1011001" * 14)[:K]]
+        hist.storage_twin_histories(s, "bptc", [("encode", BPTC19696.encode, tms, (lambda r, bits: r.to01() == ref_encode(bits)), False)])
+        tcw = [ref_encode(m) for m in tms[:3]]
+        rx = [tcw[0], spaces.flip(tcw[1], (INFO_TX[11],)), spaces.flip(tcw[2], (INFO_TX[40], TX[2][7]))]
+        items = []
+        for i, w in enumerate(rx):
+            for k, o, b in hist.storage_twins(w):
+                items.append((i, k, o, b == w))
+        for ia, ka, oa, _ in items:
+            for ib, kb, ob, valid in items:
+                if not valid:
+                    continue
+                for rep_a in (False, True):
+                    try:
+                        BPTC19696.deinterleave_data_bits(oa.copy(), rep_a)
+                    except Exception:  # noqa: BLE001
+                        pass
+                    try:
+                        r = BPTC19696.deinterleave_data_bits(ob.copy(), True).to01()
+                    except Exception as e:  # noqa: BLE001
+                        s.violation("storage_twins:exception:bptc:decode:" + exc_sig(e), {"first": [ia, ka, rep_a], "second": [ib, kb]}, repr(e))
+                        continue
+                    if r != tms[ib]:
+                        s.violation("storage_twins:wrong_result_in_a_history_of_storage_twins:bptc:decode", {"first": [ia, ka, rep_a], "second": [ib, kb]},
+                                    "decode with repair after a decode of a container sharing storage octets / bits does not return the message")
+                    s.case(nontrivial=True, calls=2, outcome="twin_pair_decode")
+        s.done()
+
     if want("long_call_history"):
         s = rep.sub("long_call_history",
                     "encode / decode-with-repair of one fixed message called again and again in one process: the result never depends on how "
